@@ -62,7 +62,9 @@ Definition visit_method (s : dstate) (m : method) : dstate :=
     | _ =>
         let s := set_d st_method_http s in
         let s := if m_options m then set_d st_method_opts (ens IJ5Ext s) else s in
-        if m_list_request m then set_d st_method_listreq s else s
+        (* (j5.list.v1.list_request) extends MessageOptions, not MethodOptions: since fix 985f10a a list request
+           is reported (addErrorf on the method's node, return) instead of panicking in SetExtension *)
+        if m_list_request m then err_d s else s
     end.
 
 (* the request (and response) objects of the methods are emitted into the same file by
@@ -161,7 +163,7 @@ Definition decl_has_list_request (d : decl) : bool :=
 (* the documented language, per declaration: every property / method in the language, none of the two
    recorded gaps *)
 Definition prop_accepted (p : prop) : bool :=
-  in_language p && negb (uses_float_rules p) && negb (uses_informal_key_listrules p).
+  in_language p && negb (uses_float_rules p).
 Definition decl_in_language (d : decl) : bool :=
   match d with
   | DObject _ props | DOneof props => forallb prop_accepted props
